@@ -107,8 +107,8 @@ def helper_case(rng: random.Random, cuts: dict, base: dict | None = None) -> dic
 class C03(CheckBase):
     pid = "C03"
     level = "fault_enumeration"
-    quick_cases = 480
-    thorough_cases = 7200
+    quick_cases = 640
+    thorough_cases = 6400
     stub = CheckBase.stub + ["for the helper-level runs: the connection object (recording stand-in)"]
     rule_text = C01.rule_text
 
